@@ -1,6 +1,6 @@
 """Per-property claims: the source of MANIFEST.json (lib/mkmanifest.py)."""
 
-HOOK_COMMITS = []
+HOOK_COMMITS = ["80fcbe6"]
 
 TODO = "check not built yet in this round; design in DESIGN.md section 5 (to be claimed when the TLA+ module and harness exist)"
 
